@@ -55,14 +55,14 @@ def twin : Op → Op
 structure DInv (sys : Sys) : Prop where
   abs : Abs sys.store (specRun [] (sys.hist.map (·.op)))
   strict : SeqStrict [] sys.hist
-  ops : ∀ th ∈ sys.threads, ∀ op ∈ th.ops, op.noEmb = true ∧ op.scanBounded = true
+  ops : ∀ th ∈ sys.threads, ∀ op ∈ th.ops, op.noEmb = true ∧ op.scanStr = true
   pcs : ∀ th ∈ sys.threads, th.pc = .start ∨
     ∃ op rest, th.ops = op :: rest ∧ op.takesLock = true ∧ th.pc = afterLog op ∧ th.inv < sys.clock
   times : ∀ r ∈ sys.hist, r.inv ≤ r.ret ∧ r.ret < sys.clock
   sorted : sys.hist.Pairwise (fun a b => a.ret < b.ret)
 
 theorem DInv.init (w : Bool) (progs : List ThreadProgram)
-    (h : ∀ p ∈ progs, ∀ op ∈ p, op.noEmb = true ∧ op.scanBounded = true) : DInv (initSys w progs) := by
+    (h : ∀ p ∈ progs, ∀ op ∈ p, op.noEmb = true ∧ op.scanStr = true) : DInv (initSys w progs) := by
   constructor
   · exact Abs.init w
   · trivial
@@ -87,10 +87,10 @@ theorem DInv.stepOld {sys : Sys} (h : DInv sys) (t : Nat) : DInv (stepOld sys t)
       have hmem : th ∈ sys.threads := List.mem_of_getElem? hth
       have hall := h.ops th hmem
       have hop := hall op (by simp [hops])
-      have hrest : ∀ o ∈ rest, o.noEmb = true ∧ o.scanBounded = true :=
+      have hrest : ∀ o ∈ rest, o.noEmb = true ∧ o.scanStr = true :=
         fun o ho => hall o (by simp [hops, ho])
       -- what the last step of an operation does to the invariant
-      have finish : ∀ (op' : Op) (s' : Store) (r : Res), op'.singleStep → op'.scanBounded = true →
+      have finish : ∀ (op' : Op) (s' : Store) (r : Res), op'.singleStep → op'.scanStr = true →
           stepOp sys.store op th.pc = stepOp sys.store op' .start →
           specStep (specRun [] (sys.hist.map (·.op))) op = specStep (specRun [] (sys.hist.map (·.op))) op' →
           (th.pc = .start ∨ th.inv < sys.clock) → DInv (Neumann.KV.stepOld sys t) := by
